@@ -115,44 +115,52 @@ pub fn display_precision_region_reachable() {
     assert!(!early_trim_fires(64, 7, 8));
 }
 
-// sign, '+', zero padding and width only add prefix / padding around the same digits
-#[cfg(kani)]
-#[kani::proof]
-#[kani::unwind(30)]
-#[kani::stub(core::str::from_utf8, fake_from_utf8)]
-pub fn display_flags() {
-    let abs: u8 = kani::any();
-    let neg: bool = kani::any();
-    let f: u32 = kani::any();
-    kani::assume(f <= 8);
-    kani::assume(!(neg && abs == 0));
-    let x = FmtDec(neg, abs, f);
-    let mut plain = Sink::new();
-    assert!(write!(plain, "{}", FmtDec(false, abs, f)).is_ok());
-    let n = plain.len;
-    // negative: '-' then the digits of the magnitude
-    let mut s1 = Sink::new();
-    assert!(write!(s1, "{}", x).is_ok());
-    let off = if neg { 1 } else { 0 };
-    assert!(s1.len == n + off && (!neg || s1.buf[0] == b'-'));
-    // '+': sign always shown
-    let mut s2 = Sink::new();
-    assert!(write!(s2, "{:+}", x).is_ok());
-    assert!(s2.len == n + 1 && s2.buf[0] == if neg { b'-' } else { b'+' });
-    // zero padding to width 12: sign first, then zeros, then the digits
-    let mut s3 = Sink::new();
-    assert!(write!(s3, "{:012}", x).is_ok());
-    assert!(s3.len == 12 && (!neg || s3.buf[0] == b'-') && s3.buf[off] == if n + off < 12 { b'0' } else { plain.buf[0] });
-    // width with default (left for non-numeric? numeric types right-align) fill: length is max(width, natural length)
-    let mut s4 = Sink::new();
-    assert!(write!(s4, "{:7}", x).is_ok());
-    assert!(s4.len == if n + off > 7 { n + off } else { 7 });
-    let mut i = 0;
-    while i < CAP {
-        if i < n { assert!(s1.buf[i + off] == plain.buf[i] && s2.buf[i + 1] == plain.buf[i] && s3.buf[12 - n + i] == plain.buf[i]); }
-        i += 1;
-    }
+// sign, '+', zero padding and width only add prefix / padding around the same digits: each harness formats the
+// value once with the flag and once plain (one flag at a time keeps the SAT problem small)
+macro_rules! flag_harness {
+    ($name:ident, $fmt:expr, $check:expr) => {
+        #[cfg(kani)]
+        #[kani::proof]
+        #[kani::unwind(30)]
+        #[kani::stub(core::str::from_utf8, fake_from_utf8)]
+        pub fn $name() {
+            let abs: u8 = kani::any();
+            let neg: bool = kani::any();
+            let f: u32 = kani::any();
+            kani::assume(f <= 8);
+            kani::assume(!(neg && abs == 0));
+            let mut plain = Sink::new();
+            assert!(write!(plain, "{}", FmtDec(false, abs, f)).is_ok());
+            let mut s = Sink::new();
+            assert!(write!(s, $fmt, FmtDec(neg, abs, f)).is_ok());
+            let check: fn(&Sink, &Sink, bool) = $check;
+            check(&plain, &s, neg);
+        }
+    };
 }
+fn same_digits(plain: &Sink, s: &Sink, off: usize) {
+    let mut i = 0;
+    while i < CAP { if i < plain.len { assert!(s.buf[i + off] == plain.buf[i]); } i += 1; }
+}
+flag_harness!(display_sign, "{}", |plain, s, neg| {
+    let off = if neg { 1 } else { 0 };
+    assert!(s.len == plain.len + off && (!neg || s.buf[0] == b'-'));
+    same_digits(plain, s, off);
+});
+flag_harness!(display_plus, "{:+}", |plain, s, neg| {
+    assert!(s.len == plain.len + 1 && s.buf[0] == if neg { b'-' } else { b'+' });
+    same_digits(plain, s, 1);
+});
+flag_harness!(display_zero_pad, "{:012}", |plain, s, neg| {
+    let off = if neg { 1 } else { 0 };
+    assert!(s.len == 12 && (!neg || s.buf[0] == b'-'));
+    assert!(plain.len + off >= 12 || s.buf[off] == b'0');
+    same_digits(plain, s, 12 - plain.len);
+});
+flag_harness!(display_width, "{:7}", |plain, s, neg| {
+    let off = if neg { 1 } else { 0 };
+    assert!(s.len == if plain.len + off > 7 { plain.len + off } else { 7 });
+});
 
 // radix 2^k: `{:x}` / `{:b}` / `{:o}` print the exact value; '#' adds the prefix
 fn read_radix(s: &Sink, start: usize, radix: u32) -> (u64, usize, bool) {
@@ -172,35 +180,27 @@ fn read_radix(s: &Sink, start: usize, radix: u32) -> (u64, usize, bool) {
     }
     (val, fd, ok)
 }
-#[cfg(kani)]
-#[kani::proof]
-#[kani::unwind(30)]
-#[kani::stub(core::str::from_utf8, fake_from_utf8)]
-pub fn display_radix2() {
-    let abs: u8 = kani::any();
-    let f: u32 = kani::any();
-    kani::assume(f <= 8);
-    let x = FmtRadix2(false, abs, f);
-    // exact: val / radix^fd == abs / 2^f   <=>   val * 2^f == abs * radix^fd
-    let mut s = Sink::new();
-    assert!(write!(s, "{:x}", x).is_ok());
-    let (val, fd, ok) = read_radix(&s, 0, 16);
-    assert!(ok && fd <= 2 && (val << f) == (abs as u64) << (4 * fd as u32));
-    let mut s = Sink::new();
-    assert!(write!(s, "{:X}", x).is_ok());
-    let (val, fd, ok) = read_radix(&s, 0, 16);
-    assert!(ok && (val << f) == (abs as u64) << (4 * fd as u32));
-    let mut s = Sink::new();
-    assert!(write!(s, "{:b}", x).is_ok());
-    let (val, fd, ok) = read_radix(&s, 0, 2);
-    assert!(ok && fd <= 8 && (val << f) == (abs as u64) << (fd as u32));
-    let mut s = Sink::new();
-    assert!(write!(s, "{:o}", x).is_ok());
-    let (val, fd, ok) = read_radix(&s, 0, 8);
-    assert!(ok && fd <= 3 && (val << f) == (abs as u64) << (3 * fd as u32));
-    let mut s = Sink::new();
-    assert!(write!(s, "{:#x}", x).is_ok());
-    assert!(s.len >= 3 && s.buf[0] == b'0' && s.buf[1] == b'x');
-    let (val, fd, ok) = read_radix(&s, 2, 16);
-    assert!(ok && (val << f) == (abs as u64) << (4 * fd as u32));
+macro_rules! radix_harness {
+    ($name:ident, $fmt:expr, $radix:expr, $bits:expr, $start:expr, $maxfd:expr) => {
+        #[cfg(kani)]
+        #[kani::proof]
+        #[kani::unwind(30)]
+        #[kani::stub(core::str::from_utf8, fake_from_utf8)]
+        pub fn $name() {
+            let abs: u8 = kani::any();
+            let f: u32 = kani::any();
+            kani::assume(f <= 8);
+            let mut s = Sink::new();
+            assert!(write!(s, $fmt, FmtRadix2(false, abs, f)).is_ok());
+            if $start == 2 { assert!(s.len >= 3 && s.buf[0] == b'0'); }
+            // exact: val / radix^fd == abs / 2^f   <=>   val * 2^f == abs * radix^fd
+            let (val, fd, ok) = read_radix(&s, $start, $radix);
+            assert!(ok && fd <= $maxfd && (val << f) == (abs as u64) << ($bits * fd as u32));
+        }
+    };
 }
+radix_harness!(display_lower_hex, "{:x}", 16, 4, 0, 2);
+radix_harness!(display_upper_hex, "{:X}", 16, 4, 0, 2);
+radix_harness!(display_binary, "{:b}", 2, 1, 0, 8);
+radix_harness!(display_octal, "{:o}", 8, 3, 0, 3);
+radix_harness!(display_alt_hex, "{:#x}", 16, 4, 2, 2);
